@@ -286,6 +286,26 @@ def _prec(seed, n_ch, which=0):
 
 
 PSCALES = (1e-10, 1e-6, 1e6)
+DTYPES = ('int64', 'int32', 'uint8', 'uint8big', 'float32', 'bool')
+TOL_F32 = 1e-4
+
+
+def _typed(base, tag, poisson):
+    """the measurement array of a dtype-family case from an integer-valued (float32: generic) fill:
+    int64 / int32 signed small integers (counts for the poisson methods), uint8 counts 0..6, uint8big
+    counts 0..240, bool 0/1, float32 the generic fill rounded to single precision"""
+    a = np.array(base, dtype=float)
+    if tag == 'float32':
+        return a.astype(np.float32)
+    if tag in ('int64', 'int32'):
+        return (a if poisson else a - 2).astype(tag)
+    if tag == 'uint8':
+        return a.astype(np.uint8)
+    if tag == 'uint8big':
+        return (a * 40).astype(np.uint8)
+    if tag == 'bool':
+        return (a % 2).astype(bool)
+    raise ValueError(tag)
 
 
 def _prec_form(seed, n_ch, form, pscale=1.0):
@@ -741,6 +761,8 @@ def _balanced_kind(case, lab_eff, folds, has_nan):
 
 def _vs_calc_rdm(ctx, case, X, labels, folds, prec, got, kind, defined):
     cls = 'method=%s,%s' % (case['method'], kind)
+    if case.get('dtype'):
+        cls += ',dtype=%s' % case['dtype'].replace('big', '')
     sub = dict(case, oracle='calc_rdm')
     if case['design'].get('naming') == 'index' and case['method'] in CV_METHODS:
         return
@@ -763,6 +785,12 @@ def _vs_calc_rdm(ctx, case, X, labels, folds, prec, got, kind, defined):
             blabs, labs))
         return
     unit = _unit(case)
+    tol = TOL
+    if case.get('dtype') == 'float32':
+        # calc_rdm averages / multiplies single-precision data in single precision (eps 6e-8): the comparison
+        # is relative to the size of the products that enter, 1e-4 of max(1, max x^2)
+        tol = TOL_F32
+        unit = max(1.0, float(np.max(np.abs(X))) ** 2)
     floor = 0.0
     if case['method'] in ('poisson', 'poisson_cv'):
         # calc_rdm forms u.log(u) + v.log(v) - u.log(v) - v.log(u) from terms of size |u log u|: its rounding
@@ -776,8 +804,9 @@ def _vs_calc_rdm(ctx, case, X, labels, folds, prec, got, kind, defined):
                 continue
             g = vec[_vec_index(a, b, k)]
             w = bvec[_vec_index(pos[a], pos[b], k)]
-            ctx.dev('calc_rdm/' + case['method'], _reldev(g, w, unit) if (g == g) == (w == w) else 0.0)
-            if not _close(g, w, TOL, unit) and not (g == g and w == w and abs(g - w) <= floor):
+            ctx.dev('calc_rdm/' + case['method'] + ('/float32' if tol != TOL else ''),
+                    _reldev(g, w, unit) if (g == g) == (w == w) else 0.0)
+            if not _close(g, w, tol, unit) and not (g == g and w == w and abs(g - w) <= floor):
                 ctx.fail('calc_rdm_unbalanced==calc_rdm|%s|value-mismatch' % cls, sub,
                          'pair (%r,%r): calc_rdm_unbalanced %.12g (agrees with the pairwise definition), '
                          'calc_rdm %.12g' % (labs[a], labs[b], g, w))
@@ -1087,6 +1116,10 @@ def _run_structured(case, ctx):
     scale = float(case.get('scale') or 1.0)
     if scale != 1.0:
         base = [[v * scale for v in r] for r in base]
+    typed = None
+    if case.get('dtype'):
+        typed = _typed(base, case['dtype'], method in ('poisson', 'poisson_cv'))
+        base = typed.astype(np.float64).tolist()        # exactly the values the typed array holds
     rows = [list(r) for r in base]
     for c in mask:
         rows[c // n_ch][c % n_ch] = ref.NAN
@@ -1098,7 +1131,7 @@ def _run_structured(case, ctx):
     except Exception as e:  # noqa: BLE001
         _fail_exc(ctx, 'reference|%s' % cls, case, e)
         return
-    X = np.array(rows, dtype=float)
+    X = np.array(rows, dtype=float) if typed is None else typed      # the array handed to the library
     got = _lib_full(ctx, case, X.copy(), labels, folds, None if prec is None else prec.copy(), cls)
     if got is None:
         ctx.case(case, nontrivial=False)
@@ -1291,6 +1324,9 @@ def shards(tier, seed):
             for p in range(0, combi.BELL[5], 4):
                 out.append({'kind': 'scale', 'ns': [5], 'P': n_ch, 'parts': [p, min(combi.BELL[5], p + 4)]})
         out.append({'kind': 'scalebal', 'P': n_ch})
+        out.append({'kind': 'dtype', 'P': n_ch, 'ns': [2, 3, 4]})
+        out.append({'kind': 'dtype', 'P': n_ch, 'ns': [5]})
+        out.append({'kind': 'dtype', 'P': n_ch, 'ns': []})
         out.append({'kind': 'pscale', 'ns': [1, 2, 3], 'P': n_ch})
         for p in range(0, combi.BELL[4], 5):
             out.append({'kind': 'pscale', 'ns': [4], 'P': n_ch, 'parts': [p, min(combi.BELL[4], p + 5)]})
@@ -1485,6 +1521,40 @@ def run_shard(shard, ctx):
                                               'variants': _variants(0, has_nan, idx, ctx.tier),
                                               'design': {'type': 'lab', 'part': parts[pidx], 'naming': naming,
                                                          'fold': fold}}, ctx)
+    elif kind == 'dtype':
+        # measurement dtypes on the designs where calc_rdm must coincide: repetitions (euclidean, mahalanobis),
+        # one observation per condition (every non-cross-validated method, with and without descriptor),
+        # fold-balanced designs (crossnobis, poisson_cv); complete data (integers cannot hold NaN)
+        def go(design, method, prec, weighting, dt):
+            run_case({'kind': design['type'], 'P': n_ch, 'fill': 0 if dt == 'float32' else 'int', 'mask': [],
+                      'method': method, 'weighting': weighting, 'prec': prec, 'dtype': dt, 'variants': [],
+                      'design': design}, ctx)
+        for n in shard['ns']:
+            for pidx, part in enumerate(_partitions(n)):
+                k = max(part) + 1
+                counts = [part.count(g) for g in range(k)]
+                for dt in DTYPES:
+                    for naming in (['desc', 'index'] if k == n else ['str' if pidx % 2 else 'desc']):
+                        d0 = {'type': 'lab', 'part': part, 'naming': naming, 'fold': None}
+                        cfgs = [('euclidean', 'none'), ('mahalanobis', 'none'), ('mahalanobis', 'spd')]
+                        if k == n:
+                            cfgs += [('correlation', 'none'), ('poisson', 'none')]
+                        for method, prec in cfgs:
+                            go(d0, method, prec, 'number', dt)
+                    if len(set(counts)) == 1 and counts[0] >= 2:       # occurrence folds are balanced
+                        d1 = {'type': 'lab', 'part': part, 'naming': 'desc', 'fold': 'occ'}
+                        for method, prec in (('crossnobis', 'none'), ('crossnobis', 'spd')):
+                            for weighting in W2:
+                                go(d1, method, prec, weighting, dt)
+        if not shard['ns']:
+            for K, M, R in [(K, M, R) for R in (1, 2) for K in (2, 3) for M in (2, 3)]:
+                for order in ('mix', 'bycond'):
+                    d2 = {'type': 'bal', 'K': K, 'M': M, 'R': R, 'order': order,
+                          'naming': 'desc' if order == 'mix' else 'str', 'foldnames': 'int'}
+                    for dt in DTYPES:
+                        for method, prec in (('crossnobis', 'none'), ('crossnobis', 'spd'), ('poisson_cv', 'none')):
+                            for weighting in W2:
+                                go(d2, method, prec, weighting, dt)
     elif kind == 'pscale':
         # precision matrices at scales 1e-10, 1e-6, 1e6 (full / diagonal / nearly diagonal), with the data
         # scaled inversely (values stay O(1)) and not; diagonal / nearly diagonal also at scale 1
